@@ -69,6 +69,15 @@ pub struct Report {
 
 impl Report {
     pub fn add_finding(&mut self, f: Finding) {
+        // replay mode: only the recorded case (or, where the case text is not stable, the recorded signature) counts
+        if let Ok(only) = std::env::var("VERIF_ONLY_CASE") {
+            if !only.is_empty() && f.case != only {
+                let sig_ok = std::env::var("VERIF_ONLY_SIGNATURE").map(|s| !s.is_empty() && s == f.signature).unwrap_or(false);
+                if !sig_ok {
+                    return;
+                }
+            }
+        }
         self.findings_total += 1;
         // keep the first of each signature, at most 40
         if self.findings.len() < 400 && !self.findings.iter().any(|g| g.signature == f.signature && g.kind == f.kind) {
